@@ -7,7 +7,7 @@ pairwise-distinct prefix/suffix bytes (not sampled ones)."""
 from pyvc.cdef import Contract, Lemma
 from pyvc.schema import Int, Bool, Const, Bytes, ByteArray, Obj, OneOf
 from pyvc.specrt import implies, ite, is_fresh
-from spec.net_ref import (digit, level, valid_node, parent, top_digit, is_descendant, next_hop, pipe_to,
+from spec.net_ref import (digit, level, valid_node, valid_address, parent, top_digit, is_descendant, next_hop, pipe_to,
                           level_addr, pipe_address, distinct_bytes, pow8)
 from spec.rf24_state import rf24_schema
 
@@ -34,7 +34,9 @@ def ref_pipe_address_m(self, node_addr, pipe_number):
 
 
 def req_pipe_address(self, node_addr, pipe_number):
-    return valid_node(node_addr) and 0 <= pipe_number and pipe_number <= 5
+    """node addresses and the three reserved level addresses (what multicast() passes)"""
+    return ((valid_address(node_addr) or (node_addr == 0o10000 and pipe_number == 0 and bool(self.allow_multicast)))
+            and 0 <= pipe_number and pipe_number <= 5)
 
 
 def ens_fresh_result(result):
@@ -190,7 +192,7 @@ RADIO_POLICY = {
 CONTRACTS = [
     Contract("C04._lvl_2_addr", "mixins:_lvl_2_addr", {"level": Int(0, 5)}, refines=R + "ref_lvl_2_addr", props=["C04", "C14"]),
     Contract("C04._pipe_address", "mixins:NetworkMixin._pipe_address",
-             {"self": PA_STATE, "node_addr": Int(0, 4095), "pipe_number": Int(0, 5)},
+             {"self": PA_STATE, "node_addr": Int(0, 4096), "pipe_number": Int(0, 5)},
              requires=[R + "req_pipe_address"], refines=R + "ref_pipe_address_m", view=R + "view_addr_cfg",
              ensures=[("fresh", R + "ens_fresh_result")], props=["C04"]),
     Contract("C04._logi_2_phys", "mixins:NetworkMixin._logi_2_phys",
